@@ -111,6 +111,10 @@ def runHistory (S : Surf) (bv : List Nat) (qs : List Query) : Option (List Strin
   let rec go (st : List Mouette.Lazy.St) : List Query → Option (List String)
     | [] => some []
     | q :: rest => do
+      -- `other`: another, different mesh object is built and queried in between; nothing of THIS object is touched
+      if q.name == "other" then
+        let tl ← go st rest
+        return ("-" :: tl)
       let fid ← lazyId q.name
       let ans ← pureAnswer S bv q
       let r := Mouette.Lazy.stepSet tbl st fid
